@@ -298,6 +298,17 @@ var Variants = []Variant{
 		c.Provs = append(c.Provs, &Prov{ID: len(c.Provs), Kind: Struct, Provides: []string{"*" + s}, Async: true})
 		return c
 	}},
+	{"iface-arg", func(d *Decl, p int) *Decl {
+		// the last consumer of provider p's value asks for the INTERFACE I<p>, which nobody binds in this
+		// declaration: I<p> is an injector argument (and p is unneeded when that was its only consumer)
+		cs := consumers(d, tname(p))
+		if len(cs) == 0 || d.Provs[p].Bind != "" {
+			return nil
+		}
+		c := d.Clone()
+		replaceReq(c.Provs[cs[len(cs)-1].ID], tname(p), fmt.Sprintf("I%d", p))
+		return c
+	}},
 	{"unreachable-async-fallible", func(d *Decl, p int) *Decl {
 		if p != 0 {
 			return nil
@@ -643,6 +654,59 @@ func Universe(tier string) []*Decl {
 					d1.Prelude = pre
 					add(d1, fmt.Sprintf("%s@%d+%s", v.Name, p, pre))
 				}
+			}
+		}
+	}
+	// Block H: twin injectors. An earlier injector of the same file is declared over the SAME provider functions,
+	// wrapped differently (all Async / none Async / additionally bound to an interface / not bound). The injector
+	// under test must not be influenced by how an earlier declaration wrapped a provider.
+	for _, b := range basesC {
+		if len(b.Provs) > 3 {
+			continue
+		}
+		nAsync := 0
+		for _, p := range b.Provs {
+			if p.Async {
+				nAsync++
+			}
+		}
+		var cands []*Decl
+		cands = append(cands, b)
+		for _, vn := range []string{"iface-arg", "bind", "bind-half", "arg-append", "struct-ptr"} {
+			for _, v := range Variants {
+				if v.Name != vn {
+					continue
+				}
+				for p := range b.Provs {
+					if !thorough && p != 0 && vn != "iface-arg" {
+						continue
+					}
+					if d1 := v.Apply(b, p); d1 != nil {
+						d1.Note += fmt.Sprintf(" + %s@%d", vn, p)
+						cands = append(cands, d1)
+					}
+				}
+			}
+		}
+		for _, c := range cands {
+			for _, pre := range []string{"twin-all-async", "twin-all-sync", "twin-bind", "twin-unbound"} {
+				hasBind := false
+				for _, p := range c.Provs {
+					if p.Bind != "" {
+						hasBind = true
+					}
+				}
+				switch {
+				case pre == "twin-all-async" && nAsync == len(b.Provs):
+					continue // identical to the injector under test
+				case pre == "twin-all-sync" && nAsync == 0:
+					continue
+				case pre == "twin-unbound" && !hasBind:
+					continue
+				}
+				t := c.Clone()
+				t.Prelude = pre
+				add(t, pre)
 			}
 		}
 	}
